@@ -60,7 +60,9 @@ Init == /\ up \in BOOLEAN /\ sk = "idle" /\ pc = 0 /\ refuse = FALSE
 
 (* ---------------- environment ---------------- *)
 Env == opens' = 0 /\ tries' = 0
-Advance(dt) == /\ rem > 0 /\ rem' = Max(0, rem - dt) /\ Env
+\* the clock may also run on while the timer has already expired (a pause in servicing of several timeouts): nothing the
+\* specification keeps changes then, but the implementation's timer falls further behind, which the binding exercises
+Advance(dt) == /\ Timeout > 0 /\ rem' = Max(0, rem - dt) /\ Env
                /\ UNCHANGED <<up, sk, pc, refuse, alive, cutoff, rep>>
 ServerUp == /\ ~up /\ up' = TRUE /\ Env
             /\ UNCHANGED <<sk, pc, refuse, alive, cutoff, rem, rep>>
